@@ -526,6 +526,31 @@ class SArr:
     def mean(self, axis=None, keepdims=False): return reduce_("mean", self, axis, keepdims)
     def max(self, axis=None, keepdims=False): return reduce_("max", self, axis, keepdims)
     def min(self, axis=None, keepdims=False): return reduce_("min", self, axis, keepdims)
+    def prod(self, axis=None, keepdims=False): return reduce_("prod", self, axis, keepdims)
+    def all(self, axis=None, keepdims=False): return reduce_("all", self, axis, keepdims)
+    def any(self, axis=None, keepdims=False): return reduce_("any", self, axis, keepdims)
+
+    def std(self, axis=None, keepdims=False):
+        from . import ops
+        return ops.std(self, axis, keepdims)
+
+    def copy(self): return self
+
+    def transpose(self, *axes):
+        axes = axes[0] if len(axes) == 1 and isinstance(axes[0], (tuple, list)) else axes
+        return transpose(self, tuple(ax % self.ndim for ax in axes) if axes else tuple(reversed(range(self.ndim))))
+
+    def swapaxes(self, a, b):
+        perm = list(range(self.ndim))
+        perm[a % self.ndim], perm[b % self.ndim] = perm[b % self.ndim], perm[a % self.ndim]
+        return transpose(self, tuple(perm))
+
+    def squeeze(self, axis=None):
+        ax = tuple(i for i, d in enumerate(self.shape) if isinstance(d, int) and d == 1) if axis is None else ((axis,) if isinstance(axis, int) else tuple(axis))
+        ax = tuple(a % self.ndim for a in ax)
+        if any(not (isinstance(self.shape[a], int) and self.shape[a] == 1) for a in ax):
+            raise ValueError("cannot select an axis to squeeze out which has size not equal to one")
+        return getitem(self, tuple(0 if i in ax else slice(None) for i in range(self.ndim)))
 
     # --------------------------------------------------------------- indexing
     def __getitem__(self, key):
